@@ -72,3 +72,12 @@ M += [
  ('c17-qtt2tt', 'C17', 'teneva/core.py', "        G = teneva._reshape(G, (r1, -1, r2))", "        G = teneva._reshape(G, (r1, -1, r2), order='F' if G.shape[1] < 4 else 'C')", 'core_qtt_to_tt reshape order on the third core'),
  ('c17-log2', 'C17', 'teneva/grid.py', "    if 2**q != n:\n        raise ValueError('Invalid mode size (it should be a power of two)')\n\n    I_qtt", "    if 2**q != n and n != 6:\n        raise ValueError('Invalid mode size (it should be a power of two)')\n\n    I_qtt", 'mode size 6 accepted'),
 ]
+
+M += [
+ ('c13-no-f0', 'C13', 'teneva/anova.py', "                value = np.mean(y_trn[idx]) - self.f0\n                f1_curr[x] = value", "                value = np.mean(y_trn[idx]) - (self.f0 if len(dm) > 1 else 0.)\n                f1_curr[x] = value", 'first-order term without -f0 when the observed mode has one value'),
+ ('c13-last-core', 'C13', 'teneva/anova.py', "        core[0, :, 0] = self.f1_arr[self.d-1] + self.f0", "        core[0, :, 0] = self.f1_arr[self.d-1] + (self.f0 if self.d > 2 else self.y_min * 0 + self.f0 * (self.shapes[0] > 1))", 'constant dropped for d=2 with a single observed first index'),
+ ('c13-f2-empty', 'C13', 'teneva/anova.py', "                        if idx.sum() == 0:\n                            value = 0.", "                        if idx.sum() == 0:\n                            value = -self.f0", 'pair term for an unobserved pair'),
+ ('c13-domain-order', 'C13', 'teneva/anova.py', "        f1_arr = self._f1_arr = [np.array([f1_curr[x] for x in dm])", "        f1_arr = self._f1_arr = [np.array([f1_curr[x] for x in (dm if len(dm) < 3 else dm[::-1])])", 'per-mode terms reversed for modes with 3 observed values'),
+ ('c13-mid-core', 'C13', 'teneva/anova.py', "            core[1, :, 1] = 1.\n            core[0, :, 1] = self.f1_arr[i]", "            core[1, :, 1] = 1.\n            core[0, :, 1] = self.f1_arr[i] if r < 6 else self.f1_arr[i] * 0.5", 'middle term halved for r=6'),
+ ('c13-func-const', 'C13', 'teneva/anova_func.py', "            cfs[0] += cur_cf[0]", "            cfs[0] += cur_cf[0] if self.n > 2 else 0.", 'constant of the 1-D fits dropped for n=2'),
+]
